@@ -41,6 +41,18 @@ def run_cases(cases, res, stratum):
             with contextlib.redirect_stdout(io.StringIO()):          # the setters print a warning for unusual prefixes
                 xc.config.bin_prefix = pb; xc.config.hex_prefix = ph
             obs['bin_cfg'] = xc.bin(); obs['hex_cfg'] = xc.hex()
+            # every prefix the configuration accepts without a warning renders a string that parses back (raw mode; any word length)
+            cfgrt = {}
+            if n >= 2:
+                for kind, pre in (('bin', c.get('pbc', '0b')), ('hex', c.get('phc', '0x'))):
+                    xp = A.mk(fx, np, s, n, nf, code)
+                    if kind == 'bin': xp.config.bin_prefix = pre
+                    else: xp.config.hex_prefix = pre
+                    st = xp.bin() if kind == 'bin' else xp.hex()
+                    y = fx.Fxp(None, s, n, nf); y.set_val(st, raw=True)
+                    cfgrt[(kind, pre)] = (st, lib.codes_of(y)[0])
+            obs['cfgrt'] = cfgrt
+            xn = A.mk(fx, np, s, n, nf, code); xn.config.hex_prefix = None; obs['hex_noprefix'] = xn.hex()
             # round trips
             rt = {}
             bstr = x.bin(prefix='0b'); hstr = x.hex()
@@ -77,7 +89,11 @@ def run_cases(cases, res, stratum):
         res.count(stratum, key=repr(c), nontrivial=code < 0 or code >= (1 << (n - 1)), n=5 + len(obs['rt']))
         res.sample(c)
         bad = False
-        for k in ('bin', 'bin_dot', 'hex', 'hex_default', 'base', 'bin_prefix_true', 'hex_prefix_true', 'hex_nopad', 'base2_dot', 'bin_cfg', 'hex_cfg'):
+        want['hex_noprefix'] = py_hex(n, code)
+        badp = [(k2, v) for k2, v in obs['cfgrt'].items() if v[1] != code or v[0] != k2[1] + (py_bin(n, code) if k2[0] == 'bin' else py_hex(n, code))]
+        if badp:
+            res.fail(c, 'C11: a string rendered with a prefix the configuration accepts does not parse back to the same code', expected=code, got=[(k2, v[0][:40], v[1]) for k2, v in badp][:2]); continue
+        for k in ('bin', 'bin_dot', 'hex', 'hex_default', 'base', 'bin_prefix_true', 'hex_prefix_true', 'hex_nopad', 'base2_dot', 'bin_cfg', 'hex_cfg', 'hex_noprefix'):
             if str(obs[k]) != want[k]:
                 res.fail(c, 'C11: %s is not the faithful image of the stored code' % k, expected=want[k], got=str(obs[k])); bad = True; break
         if bad: continue
@@ -147,14 +163,16 @@ def shard(shard, nshards, rng, tier, extra):
         if idx % nshards != shard: continue
         lo, hi = S.fmt_bounds(s, n)
         for code in range(lo, hi + 1):
-            cases.append({'f': [s, n, nf], 'c': code, 'pb': rng.choice(['0b', 'b', '', '0B']), 'ph': rng.choice(['0x', '', 'x']), 'base': rng.choice([2, 8, 10, 16])})
+            cases.append({'f': [s, n, nf], 'c': code, 'pb': rng.choice(['0b', 'b', '', '0B']), 'ph': rng.choice(['0x', '', 'x']), 'base': rng.choice([2, 8, 10, 16]),
+                          'pbc': rng.choice(['b', '0b', 'B', '0B']), 'phc': rng.choice(['x', '0x', 'X', '0X', 'h', '0h', 'H', '0H'])})
     run_cases(cases, res, 'A:all-codes-small')
     cases = []
     for _ in range((600 if tier == 'quick' else 15000) // nshards):
         n = rng.choice([9, 12, 15, 16, 17, 31, 32, 33, 52, 53, 63, 64, 65, 100, 127, 128, 129, 200, 256, rng.randint(9, 256)]); s = rng.random() < 0.5
         nf = rng.choice([0, 1, n // 2, n - 1, n]); lo, hi = S.fmt_bounds(s, n)
         code = rng.choice([lo, hi, 0, -1 if s else hi, lo + 1, hi - 1, rng.randint(lo, hi)])
-        cases.append({'f': [s, n, nf], 'c': code, 'pb': rng.choice(['0b', 'b', '']), 'ph': rng.choice(['0x', '']), 'base': rng.choice([2, 8, 10, 16])})
+        cases.append({'f': [s, n, nf], 'c': code, 'pb': rng.choice(['0b', 'b', '']), 'ph': rng.choice(['0x', '']), 'base': rng.choice([2, 8, 10, 16]),
+                      'pbc': rng.choice(['b', '0b', 'B', '0B']), 'phc': rng.choice(['x', '0x', 'X', '0X', 'h', '0h', 'H', '0H'])})
     run_cases(cases, res, 'B:boundary-random-to-256')
     run_arrays(rng, (150 if tier == 'quick' else 4000) // nshards, res)
     res.exhaustive = True
